@@ -15,7 +15,9 @@ directory and (b) to the s-expression the extracted model reads. A case is a JSO
         | {"k": "impl", "ty": s, "fns": [fn items]}
         | {"k": "mod", "name": s, "items": [item, ...]}
         | {"k": "other", "src": text}
-  type  = [name, [type, ...]] | "unit"
+  type  = [name, [type, ...]] | ["(tuple)", [type, type, ...]] | "unit"
+A function name may be a raw identifier (r#type): the model receives it as written and strips
+the marker itself (C03RetType.unraw), the specification calls the result the Rust name.
 """
 import os
 
@@ -26,6 +28,8 @@ def ty_text(t):
     if t == "unit":
         return "()"
     name, args = t
+    if name == "(tuple)":
+        return "(%s)" % ", ".join(ty_text(a) for a in args)
     return name if not args else "%s<%s>" % (name, ", ".join(ty_text(a) for a in args))
 
 
@@ -106,6 +110,8 @@ def ty_sx(t):
     if t == "unit":
         return ["t", []]
     name, args = t
+    if name == "(tuple)":
+        return ["t", [ty_sx(a) for a in args]]
     return ["p", [], name, bool(args), [ty_sx(a) for a in args]]
 
 
@@ -170,7 +176,9 @@ NEAR_ATTRS = [                      # look like the command attribute, are not
 ]
 RET_LEAVES = [["String", []], ["bool", []], ["i32", []], ["u8", []], ["f64", []], "unit", ["User", []], ["Item", []]]
 FN_NAMES = ["get_user", "save", "list_items", "ping", "load_config", "delete_item", "greet", "sync_all", "open2",
-            "fetch_data", "x", "run_task", "close_window", "a1", "read_file", "update_user_name"]
+            "fetch_data", "x", "run_task", "close_window", "a1", "read_file", "update_user_name",
+            # raw identifiers (since C01-raw-ident-strip the command is called type / match / move)
+            "r#type", "r#match", "r#move"]
 PARAM_SETS = [
     [], [], [],
     [["id", "i32"]],
@@ -220,30 +228,24 @@ ROOTS_CLASS = [["x", "target", "proj"], ["w", ".git", "p", "src"], ["target", "d
 
 
 def gen_ret(rng, depth=0):
+    """Return types over the leaves under Result/Option/Vec/HashMap/BTreeMap/tuples, depth <= 2.
+    Since C05-2-3-top-level-commas every such type translates at the top-level commas, so types
+    whose Ok arm or tuple element prints a comma (Result<Result<..>, E>, Result<HashMap<K, V>, E>,
+    (HashMap<K, V>, bool)) are ordinary inputs; before that repair they were kept out
+    (class kf_result_ok_has_comma of C05: commands.ts was not even a module)."""
     r = rng.random()
-    if depth >= 2 or r < 0.45:
+    if depth >= 2 or r < 0.40:
         return rng.choice(RET_LEAVES)
-    if r < 0.65:
+    if r < 0.58:
         return ["Result", [gen_ret(rng, depth + 1), ["String", []]]]
-    if r < 0.8:
+    if r < 0.70:
         return ["Option", [gen_ret(rng, depth + 1)]]
-    return ["Vec", [gen_ret(rng, depth + 1)]]
-
-
-def has_result(t):
-    return t != "unit" and (t[0] == "Result" or any(has_result(a) for a in t[1]))
-
-
-def safe_ret(t):
-    """Keeps the generator inside the type set whose translation has no recorded defect of its
-    own (C05): the Ok arm of a Result prints no comma, i.e. no Result below a Result
-    (Result<Result<(), String>, String> is cut at the first comma and emits types.Result<()>)."""
-    if t == "unit":
-        return True
-    name, args = t
-    if name == "Result" and has_result(args[0]):
-        return False
-    return all(safe_ret(a) for a in args)
+    if r < 0.82:
+        return ["Vec", [gen_ret(rng, depth + 1)]]
+    if r < 0.92:
+        key = rng.choice([["String", []], ["String", []], ["i32", []], ["User", []], ["(tuple)", [["String", []], ["u8", []]]]])
+        return [rng.choice(["HashMap", "HashMap", "BTreeMap"]), [key, gen_ret(rng, depth + 1)]]
+    return ["(tuple)", [gen_ret(rng, depth + 1) for _ in range(rng.choice([2, 2, 3]))]]
 
 
 def gen_fn(rng, name, command, method=False):
@@ -261,8 +263,6 @@ def gen_fn(rng, name, command, method=False):
     ret = None
     if rng.random() < 0.8:
         ret = gen_ret(rng)
-        while not safe_ret(ret):
-            ret = gen_ret(rng)
     return {"k": "fn", "name": name, "attrs": attrs, "doc": rng.random() < 0.3,
             "vis": rng.choice(["", "", "pub", "pub", "pub(crate)", "pub(super)"]),
             "async": rng.random() < 0.4, "params": [list(p) for p in rng.choice(PARAM_SETS)], "ret": ret, "recv": method and rng.random() < 0.6}
@@ -396,6 +396,35 @@ def path_enumeration():
     return cases
 
 
+def multi(t):
+    """the printed type contains a comma"""
+    return t != "unit" and (len(t[1]) >= 2 or any(multi(a) for a in t[1]))
+
+
+def ret_shape(f):
+    t = f.get("ret")
+    out = []
+    if f["name"].startswith("r#"):
+        out.append("fn_name:raw_identifier")
+    if t is None or t == "unit":
+        return out
+
+    def walk(t):
+        if t == "unit":
+            return
+        name, args = t
+        if name == "Result" and args and multi(args[0]):
+            out.append("ret:result_ok_prints_comma")
+        if name == "(tuple)" and any(multi(a) for a in args):
+            out.append("ret:tuple_element_prints_comma")
+        if name == "Vec" and args and args[0] != "unit" and args[0][0] in ("Option", "Vec", "HashMap", "BTreeMap", "(tuple)"):
+            out.append("ret:array_of_composite")
+        for a in args:
+            walk(a)
+    walk(t)
+    return sorted(set(out))
+
+
 def stats(case, acc):
     def walk(nodes, depth):
         for n in nodes:
@@ -416,6 +445,8 @@ def stats(case, acc):
             if it["k"] == "fn":
                 for a in it["attrs"]:
                     acc["attr:" + a["text"]] = acc.get("attr:" + a["text"], 0) + 1
+                for key in ret_shape(it):
+                    acc[key] = acc.get(key, 0) + 1
             elif it["k"] == "impl":
                 for f in it["fns"]:
                     for a in f["attrs"]:
